@@ -850,8 +850,10 @@ def plan_C04(chk, tier, seed):
                                      ("MC_Unknown", "C04_Cases", "    Deep = %s\n" % ("TRUE" if tier == "thorough" else "FALSE")),
                                      ("MC_Truncate", "C04_Cases", "    Deep = FALSE\n")):
             run = "C04.%s.%s.%s" % (module, cases, cfg)
-            if (module in ("MC_Truncate", "MC_Unknown", "MC_Filter") or cases == "MC_CasesDict") and cfg != "all" and tier == "quick":
+            if (module in ("MC_Truncate", "MC_Unknown", "MC_Filter") or cases == "OrderCases") and cfg != "all" and tier == "quick":
                 continue          # these corpora hardly depend on the feature configuration
+            if cases == "MC_CasesDict" and tier == "quick":
+                continue          # the dictionary / per-mode corpus is part of the thorough tier (and of C01 / C10 quick)
             r = tlc(module, scenario_cfg(cfg, cases, ["TypeOK", "DecodeTotal", "Emit"], 1, extra), run, workers=14)
             if not r["ok"]:
                 raise ToolError("TLC %s failed:\n%s" % (run, "\n".join(r["log"][-30:])))
@@ -863,7 +865,7 @@ def plan_C04(chk, tier, seed):
                 judge_vectors(chk, "all+log", r, run + ".log", ["C04"])
             runs.append(r["vec_path"])
         # (iii) byte-level mutation of those messages, every event validated by the trace specification
-        n = 3000 if tier == "quick" else 40000
+        n = 2000 if tier == "quick" else 40000
         mutation_traces(chk, cfg, runs, n, seed, "C04.mutate.%s" % cfg, {"decode2": ["C01", "C04", "C05"]},
                         shards=6 if tier == "quick" else 12)
     return ("(i) the byte-feeding automaton: TLC explores every live prefix (all 256 first bytes to 2 bytes; the six "
